@@ -75,6 +75,30 @@ class _Stop(Exception):
     pass
 
 
+def _guard_run_case(mod, isolate):
+    """An exception that escapes from Conductor's own code while a check drives its API directly is a finding
+    (`conductor_raised:<Type>`), not a harness error; anything raised by the harness itself still is one."""
+    inner = mod.run_case
+
+    def run_case(case):
+        try:
+            return inner(case)
+        except (isolate.HarnessError, KeyboardInterrupt, SystemExit, MemoryError):
+            raise
+        except Exception as ex:  # noqa
+            tb = ex.__traceback__
+            frames = []
+            while tb is not None:
+                frames.append(tb.tb_frame.f_code.co_filename)
+                tb = tb.tb_next
+            src = os.path.join(isolate.SRC_REAL, "conductor")
+            if frames and os.path.realpath(frames[-1]).startswith(src):
+                text = "%s escaped from %s: %s" % (type(ex).__name__, os.path.relpath(os.path.realpath(frames[-1]), src), str(ex)[:200])
+                return Outcome([("conductor_raised:" + type(ex).__name__, text)], ["conductor_raised"], False, {"exception": text})
+            raise
+    mod.run_case = run_case
+
+
 def worker_main(prop_id, tier, w, nworkers, seed, outfile):
     from . import isolate
     isolate.setup_imports()
@@ -82,6 +106,7 @@ def worker_main(prop_id, tier, w, nworkers, seed, outfile):
     from hypothesis import given, settings, HealthCheck, Phase
 
     mod = load_prop(prop_id)
+    _guard_run_case(mod, isolate)
     known = load_known(prop_id)
     st = {
         "evaluations": 0, "nontrivial": set(), "labels": {}, "samples": [],
